@@ -17,7 +17,9 @@ const CONFIGS: [(&str, &str); 6] = [("none", ""), ("none-half", "half"), ("alloc
 fn has_alloc(c: usize) -> bool { c >= 2 }
 fn has_half(c: usize) -> bool { c % 2 == 1 }
 
-struct Entry { bytes: Vec<u8>, item: Option<Item>, kind: &'static str }
+/// `chain`: Some(has an indefinite container inside a definite one) for the deep nesting chains, whose `Item` tree is
+/// never built (recursion-free handling of 10^5 levels)
+struct Entry { bytes: Vec<u8>, item: Option<Item>, kind: &'static str, chain: Option<bool> }
 
 struct World { entries: Vec<Entry>, verdicts: Vec<[HashMap<String, String>; 6]>, lines: u64 }
 
@@ -52,7 +54,7 @@ fn corpus(seed: u64, n: usize) -> Vec<Entry> {
     // deterministic pseudo-tape per entry (the corpus is a pure function of VERIF_SEED)
     let tape_for = |i: u64| -> Vec<u8> { let mut x = hash_of(&(seed, i, "cfg-corpus")) | 1; (0 .. 768).map(|_| { x ^= x << 13; x ^= x >> 7; x ^= x << 17; (x >> 32) as u8 }).collect() };
     // structural skip patterns: exhaustive small structures (well-formed, known nesting)
-    for s in small_structures(4) { out.push(Entry { bytes: s.encode(), item: Some(s), kind: "structure" }) }
+    for s in small_structures(4) { out.push(Entry { bytes: s.encode(), item: Some(s), kind: "structure", chain: None }) }
     let shapes: Vec<Item> = vec![
         Item::array(vec![Item::uint(1), Item::uint(2)]), Item::array(vec![Item::uint(1), Item::True]), Item::array(vec![Item::uint(3), Item::uint(4), Item::uint(500)]),
         Item::array(vec![Item::uint(0), Item::uint(7)]), Item::array(vec![Item::uint(1), Item::False]), Item::array(vec![Item::uint(2), Item::array(vec![])]), Item::array(vec![Item::uint(2), Item::Array(vec![Item::Array(vec![], None)], Some(vcore::W::Imm))]),
@@ -67,7 +69,7 @@ fn corpus(seed: u64, n: usize) -> Vec<Entry> {
         Item::array(vec![Item::uint(1), Item::uint(1_000_000_000)]), Item::array(vec![Item::uint(u64::MAX), Item::uint(999_999_999)]), Item::uint(65), Item::uint(0xd800), Item::uint(0x110000), Item::array(vec![Item::Null, Item::uint(3)]),
         Item::map(vec![(Item::uint(1), Item::text("a")), (Item::uint(2), Item::text("b"))]), Item::array(vec![Item::Null, Item::array(vec![Item::uint(1), Item::text("x")])]),
     ];
-    for s in &shapes { out.push(Entry { bytes: s.encode(), item: Some(s.clone()), kind: "shape" }) }
+    for s in &shapes { out.push(Entry { bytes: s.encode(), item: Some(s.clone()), kind: "shape", chain: None }) }
     let mut i = 0u64;
     let n = out.len() + n;
     while out.len() < n {
@@ -75,13 +77,15 @@ fn corpus(seed: u64, n: usize) -> Vec<Entry> {
         let tape = tape_for(i);
         let mut g = Gen::new(&tape);
         match g.below(10) {
-            0 ..= 3 => { let it = if g.bool() { item(&mut g, &ItemCfg { max_nodes: 16, ..ItemCfg::FULL }) } else { let base = shapes[g.below(shapes.len())].clone(); vcore::gen::reframe(&mut g, &base, true, true, true) }; out.push(Entry { bytes: it.encode(), item: Some(it), kind: "well-formed" }) }
-            4 ..= 6 => { let base = if g.bool() { item(&mut g, &ItemCfg { max_nodes: 16, ..ItemCfg::FULL }) } else { shapes[g.below(shapes.len())].clone() }; let (b, _) = mutate(&mut g, &base.encode()); out.push(Entry { bytes: b, item: None, kind: "mutated" }) }
-            7 | 8 => { let base = if g.bool() { item(&mut g, &ItemCfg { max_nodes: 16, ..ItemCfg::FULL }) } else { shapes[g.below(shapes.len())].clone() }; let e = base.encode(); let c = g.below(e.len().max(1)); out.push(Entry { bytes: e[.. c].to_vec(), item: None, kind: "truncated" }) }
-            _ => { let n = g.below(24); out.push(Entry { bytes: (0 .. n).map(|_| g.byte()).collect(), item: None, kind: "random" }) }
+            0 ..= 3 => { let it = if g.bool() { item(&mut g, &ItemCfg { max_nodes: 16, ..ItemCfg::FULL }) } else { let base = shapes[g.below(shapes.len())].clone(); vcore::gen::reframe(&mut g, &base, true, true, true) }; out.push(Entry { bytes: it.encode(), item: Some(it), kind: "well-formed", chain: None }) }
+            4 ..= 6 => { let base = if g.bool() { item(&mut g, &ItemCfg { max_nodes: 16, ..ItemCfg::FULL }) } else { shapes[g.below(shapes.len())].clone() }; let (b, _) = mutate(&mut g, &base.encode()); out.push(Entry { bytes: b, item: None, kind: "mutated", chain: None }) }
+            7 | 8 => { let base = if g.bool() { item(&mut g, &ItemCfg { max_nodes: 16, ..ItemCfg::FULL }) } else { shapes[g.below(shapes.len())].clone() }; let e = base.encode(); let c = g.below(e.len().max(1)); out.push(Entry { bytes: e[.. c].to_vec(), item: None, kind: "truncated", chain: None }) }
+            _ => { let n = g.below(24); out.push(Entry { bytes: (0 .. n).map(|_| g.byte()).collect(), item: None, kind: "random", chain: None }) }
         }
     }
     for e in out.iter_mut() { if e.bytes.len() > 4000 { e.bytes.truncate(4000); e.item = None } }
+    // deep nesting chains (after the truncation above: these stay whole), incl. more than 65535 open containers
+    for kind in 0 .. vcore::gen::CHAIN_KINDS { for depth in [300usize, 5000, 66_000, 100_000] { let (b, _, nest) = vcore::gen::chain(kind, depth); out.push(Entry { bytes: b, item: None, kind: "deep-chain", chain: Some(nest) }) } }
     out
 }
 
@@ -152,7 +156,7 @@ fn compare(i: u64, st: &mut Stats) -> CaseResult {
             // every other difference to the richest configuration is a violation (the rules above are the only
             // documented ones and each is judged directly against the reference)
             return Err(Fail::new(format!("{}/{}-vs-{}", op, CONFIGS[c].0, CONFIGS[r].0),
-                format!("operation `{}` on input {} ({}): configuration `{}` gives {} but `{}` gives {} (all: {})", op, hex(&e.bytes), e.kind, CONFIGS[c].0, cv, CONFIGS[r].0, rv,
+                format!("operation `{}` on input {}{} ({}): configuration `{}` gives {} but `{}` gives {} (all: {})", op, hex(&e.bytes[.. e.bytes.len().min(200)]), if e.bytes.len() > 200 { format!(".. ({} bytes)", e.bytes.len()) } else { String::new() }, e.kind, CONFIGS[c].0, cv, CONFIGS[r].0, rv,
                         present.iter().map(|x| format!("{}={}", CONFIGS[*x].0, v[*x][op])).collect::<Vec<_>>().join(" "))))
         }
         if present.len() >= 3 && e.bytes.len() >= 2 { st.nontrivial(hash_of(&(op, &e.bytes))) }
@@ -167,17 +171,18 @@ fn compare(i: u64, st: &mut Stats) -> CaseResult {
 fn noalloc_skip(i: u64, st: &mut Stats) -> CaseResult {
     let w = match world() { Ok(w) => w, Err(e) => return Err(Fail::new("infrastructure", e.clone())) };
     let e = &w.entries[i as usize];
-    let it = match &e.item { Some(it) => it, None => return Ok(()) };
+    let nested = match (&e.item, e.chain) { (Some(it), _) => it.has_indef_in_def(), (None, Some(n)) => n, (None, None) => return Ok(()) };
     let len = e.bytes.len();
     for c in 0 .. 2 {
         st.eval();
         let v = match w.verdicts[i as usize][c].get("skip") { Some(v) => v, None => return Err(Fail::new("infrastructure", "no skip verdict".to_string())) };
         let ok_here = v.starts_with('o') && v.rsplit('@').next() == Some(&len.to_string());
         if ok_here { st.class("no-alloc/skipped"); continue }
-        if is_err_class(v, "msg") && it.has_indef_in_def() { st.class("no-alloc/documented refusal"); continue }
-        return Err(Fail::new(format!("noalloc-skip/{}", CONFIGS[c].0), format!("no-alloc skip() on the well-formed item {} = {} gave {} (item length {}; nesting of an indefinite container inside a definite one: {})", hex(&e.bytes), it.render(), v, len, it.has_indef_in_def())))
+        if is_err_class(v, "msg") && nested { st.class("no-alloc/documented refusal"); continue }
+        return Err(Fail::new(format!("noalloc-skip/{}", CONFIGS[c].0), format!("no-alloc skip() on the well-formed item {} = {} gave {} (item length {}; nesting of an indefinite container inside a definite one: {})", hex(&e.bytes[.. e.bytes.len().min(200)]), e.item.as_ref().map(|it| it.render()).unwrap_or_else(|| format!("a {}-byte nesting chain", e.bytes.len())), v, len, nested)))
     }
-    if it.has_container() { st.nontrivial(hash_of(&e.bytes)) }
+    if e.chain.is_some() { st.class("no-alloc/deep chain") }
+    if e.chain.is_some() || e.item.as_ref().map(|it| it.has_container()).unwrap_or(false) { st.nontrivial(hash_of(&e.bytes)) }
     Ok(())
 }
 
